@@ -548,3 +548,7 @@ Example kappa_runs : let p := [1; 1; -1; 0; -1; 1; 0; -1; 1; -1]%Z in
   MiniPy.exec (prim3 p (VQ 0)) 0 g_kappa [] = ORet (VInt (-1)) /\
   MiniPy.exec (prim2 p) 0 g_delta [] = ORet (VQ (m_delta p)) /\ (0 < m_delta p)%Q.
 Proof. repeat split; vm_compute; reflexivity. Qed.
+
+(* ---------- the public getters (SequenceParameters) are exactly a return of the backend call with their own arguments ---------- *)
+Lemma fw_get_kappa : g_fw_get_kappa = SReturn (ECall "SeqObj.kappa"%string []). Proof. reflexivity. Qed.
+Lemma fw_get_delta : g_fw_get_delta = SReturn (ECall "SeqObj.delta"%string []). Proof. reflexivity. Qed.
